@@ -51,6 +51,8 @@ def build_harness(kind):
         cmd = ["cargo", "build", "--offline", "--quiet"] + (["--profile", "shipping"] if ship else ["--release"])
         if base == "bare":        # the crate without its `svg` / `image` features: what a user without a renderer compiles
             cmd += ["--no-default-features"]
+        if base == "svgonly":     # the crate with `svg` but without `image`
+            cmd += ["--no-default-features", "--features", "svg"]
         if base == "hooked":
             env["RUSTFLAGS"] = GUARD_FLAGS
             cmd += ["--features", "hooks"]
